@@ -781,6 +781,11 @@ func syncMsgFamily(o hreg.Opts) *family {
 		// sync period of 3 epochs (!= SYNC_COMMITTEE_SUBNET_COUNT): SLOTS_PER_EPOCH 4 (period 1 = slots 12..23) and 48
 		// (period 1 = slots 144..287)
 		{"t", 20, 1}, {"t", 21, 17}, {"t", 22, 40}, {"t", 23, 63}, {"t", 24, 5}, {"t", 13, 9},
+		// SYNC_COMMITTEE_SIZE 30 (slices of 7) and 13 (slices of 3): the member at the first and the last position of every
+		// slice, and the members beyond the last slice (their formula subnet is 4)
+		{"o", 26, 0}, {"o", 26, 6}, {"o", 26, 7}, {"o", 26, 13}, {"o", 27, 14}, {"o", 27, 20}, {"o", 27, 21}, {"o", 27, 27},
+		{"o", 28, 28}, {"o", 28, 29},
+		{"p", 26, 0}, {"p", 26, 2}, {"p", 26, 3}, {"p", 26, 5}, {"p", 27, 6}, {"p", 27, 8}, {"p", 27, 9}, {"p", 27, 11}, {"p", 28, 12},
 		{"w", 287, 2}, {"w", 286, 5}, {"w", 240, 9}, {"w", 288, 30}} {
 		c := mustGet(b.cfg)
 		v, sn := syncMember(c, b.slot, b.pick)
@@ -851,6 +856,23 @@ func pickSyncAggregator(c *netCtx, slot, subidx uint64, want bool) (uint64, bool
 	return 0, false
 }
 
+// aggrAt: make the member at committee position pos(subcommittee size, subcommittee index, committee size) of the
+// committee in charge the aggregator (no change when the position does not exist).
+func aggrAt(pos func(sub, idx, n uint64) uint64) func(k *kvs) {
+	return func(k *kvs) {
+		c := mustCtx(k)
+		if k.u("subidx") >= 4 {
+			return
+		}
+		s := syncState(c, k.u("slot"))
+		in, _ := c.syncInCharge(s, k.u("slot"))
+		p := pos(uint64(c.spec.SYNC_COMMITTEE_SIZE)/4, k.u("subidx"), uint64(len(in)))
+		if p < uint64(len(in)) {
+			k.setU("aggregator", uint64(in[p]))
+		}
+	}
+}
+
 func contribFamily(o hreg.Opts) *family {
 	f := &family{kind: "contrib", pairBases: 2, triples: o.Pick(300, 4000)}
 	for _, b := range []struct {
@@ -861,7 +883,12 @@ func contribFamily(o hreg.Opts) *family {
 		{"b", 63, 0, []uint64{4, 9}}, {"s", 17, 2, []uint64{0, 1, 2, 3, 4, 5, 6, 7}},
 		{"b", 56, 1, []uint64{0, 5}}, {"b", 58, 3, []uint64{2}}, {"b", 60, 0, []uint64{7, 8, 9}}, {"b", 62, 2, []uint64{31}},
 		{"s", 57, 0, []uint64{1, 2}}, {"s", 61, 3, []uint64{0}}, {"s", 64, 1, []uint64{3, 4}},
-		{"t", 22, 1, []uint64{0, 15}}, {"t", 23, 3, []uint64{7}}, {"t", 24, 0, []uint64{1, 2, 3}}, {"w", 287, 2, []uint64{0, 1}}} {
+		{"t", 22, 1, []uint64{0, 15}}, {"t", 23, 3, []uint64{7}}, {"t", 24, 0, []uint64{1, 2, 3}}, {"w", 287, 2, []uint64{0, 1}},
+		// every subcommittee of a sync committee of 30 (slices of 7) and of 13 (slices of 3); participants at the first and
+		// the last position of the slice
+		{"o", 26, 0, []uint64{0, 6}}, {"o", 26, 1, []uint64{0, 6}}, {"o", 27, 2, []uint64{0, 6}}, {"o", 27, 3, []uint64{0, 6}},
+		{"o", 28, 2, []uint64{3}}, {"o", 28, 3, []uint64{0, 1, 2, 3, 4, 5, 6}},
+		{"p", 26, 0, []uint64{0, 2}}, {"p", 26, 1, []uint64{0, 2}}, {"p", 27, 2, []uint64{0, 2}}, {"p", 27, 3, []uint64{0, 2}}, {"p", 28, 3, []uint64{1}}} {
 		c := mustGet(b.cfg)
 		aggr, ok := pickSyncAggregator(c, b.slot, b.subidx, true)
 		if !ok {
@@ -912,6 +939,10 @@ func contribFamily(o hreg.Opts) *family {
 			m("subidx+1", func(k *kvs) { k.setU("subidx", (k.u("subidx")+1)%4) })}},
 		{"bits", []mutation{m("bits:none", set("bits", "-")), m("bits:one", set("bits", "2"))}},
 		{"aggregator", []mutation{m("aggregator-not-selected", notSelected), m("aggregator-other-subcommittee", otherSub),
+			m("aggregator=last-of-slice", aggrAt(func(sub, idx, n uint64) uint64 { return sub*(idx+1) - 1 })),
+			m("aggregator=first-of-next-slice", aggrAt(func(sub, idx, n uint64) uint64 { return sub * (idx + 1) })),
+			m("aggregator=last-of-previous-slice", aggrAt(func(sub, idx, n uint64) uint64 { return sub*idx - 1 })),
+			m("aggregator=last-committee-position", aggrAt(func(sub, idx, n uint64) uint64 { return n - 1 })),
 			m("aggregator=n", func(k *kvs) { k.setU("aggregator", uint64(mustCtx(k).def.validators)) }), m("aggregator=max", setU("aggregator", ^uint64(0)))}},
 		{"bknown", []mutation{m("block-unknown", set("bknown", "0"), set("tsub", "unk"), set("fsub", "unk")),
 			m("block-unknown-inconsistent-view", set("bknown", "0"))}},
@@ -1028,7 +1059,7 @@ func genUnits(o hreg.Opts, rng *rand.Rand, w *bufio.Writer) {
 			fmt.Fprintf(w, "subnet spe=%d cps=%d slot=%d idx=%d\n", spe, cps, slot, idx)
 			st.Add("kind", "subnet")
 		case 3, 4:
-			size := []uint64{4, 8, 32, 128}[rng.Intn(4)]
+			size := []uint64{4, 8, 32, 128, 5, 6, 13, 30, 511}[rng.Intn(9)]
 			comm := make([]uint64, size)
 			for j := range comm {
 				comm[j] = uint64(rng.Intn(int(size)/2 + 2))
